@@ -314,6 +314,14 @@ func explained(e string, f *faultSpec) bool {
 	switch f.Target {
 	case tIdx:
 		needles = []string{"rule_list_index", "index response", "rule-list id", "adding rule list", "decoding: "}
+		if isIdxVariant(f.Kind) {
+			// A partially invalid index is transferred completely and
+			// decodes: only the complaints about its entries are explained
+			// by it.  A failure to load the index itself in such a round
+			// (spurious timeout, no space left on the device, ...) is not,
+			// and makes the round ambiguous.
+			needles = []string{"index response", "rule-list id", "adding rule list"}
+		}
 		if isIdxKnown(f.Kind) {
 			needles = append(needles, tRLb)
 		}
@@ -1101,11 +1109,13 @@ func TestCheck(t *testing.T) {
 	r.Rule("fault rounds: every (fault kind, download target) pair in a seeded good/faulty pattern of <= 4 rounds (thorough: every pattern); " +
 		"class = (kind, target, pattern); non-trivial = the fault was really requested by the code under test while a previous complete version existed. " +
 		"crash points: class = (method, syscall or target, N or chunk); non-trivial = the child was killed before it finished. " +
+		"overlapping refreshes: class = (completion order, faulted list, fault kind, held download); non-trivial = the schedule was realised (first refresh parked inside a download while the second ran to completion, both returned nil). " +
 		"Oracle from the statement: faulted list == version served before; other lists in {before, new}; cache files and restarts only complete versions.")
 	r.Assume("every list version is recognisable by probe hosts unique to it (first, middle and last entry); a version counts as served only if all three are filtered")
 	r.Assume("a complete version is every body that was transferred completely with status 200 - including documents whose content the code under test then rejects (undecodable JSON index, service index with an invalid id, hash list with an over-long line); bodies of truncated, oversized, empty, non-200 or interrupted transfers never count")
 	r.Assume("the restart-usability assertion applies only while no cache file holds such a complete-but-content-invalid document; otherwise the outcome of the restart is only counted (bucket observed_restart_fails_on_complete_but_unusable_cached_document); that the affected list keeps serving its previous content in memory is still asserted")
 	r.Assume("temporary files (names starting with '.') are ignored in the cache directory")
+	r.Assume("two Refresh calls on one storage may overlap (periodic worker and debug-API refresh); the schedules park the first refresh inside a download by pausing the response, which is decided by the server, not by timing")
 	r.Assume("crash points: the child pins the refreshing goroutine to one OS thread so that strace's per-thread 'when=N' enumerates the file system calls of a refresh in order; SIGKILL is delivered on entry of the N-th call (the call does not take effect)")
 	r.Assume("durability against power loss (effect of a missing fsync) is not observable by killing a process and is not covered")
 	r.Assume("a round in which an error not explained by the injected fault was reported (e.g. a spurious timeout under load) is only held to the lenient rules; it is counted as ambiguous")
@@ -1121,6 +1131,10 @@ func TestCheck(t *testing.T) {
 	}
 	r.Extra("fault_rounds_wall_s", time.Since(t0).Seconds())
 
+	if os.Getenv("VERIF_C13_SKIP_ROUNDS") == "" {
+		ru.overlapRounds()
+	}
+
 	t1 := time.Now()
 	ru.crashPoints()
 	r.Extra("crash_points_wall_s", time.Since(t1).Seconds())
@@ -1134,6 +1148,8 @@ func TestCheck(t *testing.T) {
 	r.Require("partial_index_valid_entries_applied", 8)
 	r.Require("partial_index_duplicate_key_rounds_with_previous_version", 5)
 	r.Require("partial_index_absent_member_rounds_on_live_storage", 5)
+	r.Require("overlap_schedules_realized/"+ovFaultedLast, 4)
+	r.Require("overlap_schedules_realized/"+ovFaultedFirst, 4)
 	r.Require("kills", 90)
 	r.Require("kills/stall", 30)
 	r.Require("kills/inject", 40)
